@@ -641,6 +641,7 @@ def _mk(name, gen, oracle, nps, thorough_only=False):
     s = Stream(name, 'h_comm', 'comm', gen, oracle=oracle, np=nps, whitebox=('ref_mpi',), timeout=240,
                nontrivial=_nontrivial, session='\x00none', batches={'quick': 1, 'thorough': 3})
     s.thorough_only = thorough_only
+    s.ops_file = True  # see run_impl in common.py: mpiexec's stdin forwarding is unreliable for large inputs
     return s
 
 
